@@ -1,7 +1,9 @@
 package objecth
 
 import (
+	"bytes"
 	"fmt"
+	"runtime/debug"
 	"math/rand"
 	"sort"
 	"strings"
@@ -147,6 +149,72 @@ func runStoreCapCase(o *out, ncap int) {
 	o.pf("END\n")
 }
 
+// runStoreHeldCase: wires returned by Get stay in use while the store is written to — enough later writes to make
+// the bolt file grow (its memory map is replaced) and to reuse the pages freed by removals.
+func runStoreHeldCase(o *out, r *rand.Rand) {
+	m := newStore("m")
+	b := newStore("b")
+	defer m.close()
+	defer b.close()
+	o.pf("STORE\n")
+	mk := func(i int) enc.Name {
+		return enc.Name{enc.NewStringComponent(enc.TypeGenericNameComponent, "held"), enc.NewVersionComponent(uint64(i)), enc.NewSegmentComponent(0)}
+	}
+	wireOf := func(i, size int) []byte {
+		w := make([]byte, size)
+		for j := range w {
+			w[j] = byte(i*31 + j)
+		}
+		return w
+	}
+	put := func(i, size int) {
+		w := wireOf(i, size)
+		o.pf("PUT %s %d %s\n", nameStr(mk(i)), i, hx(w))
+		m.st.Put(mk(i), uint64(i), w)
+		b.st.Put(mk(i), uint64(i), w)
+	}
+	o.pf("BEGIN\n")
+	m.st.Begin()
+	b.st.Begin()
+	for i := 1; i <= 40; i++ {
+		put(i, 1500)
+	}
+	o.pf("COMMIT\n")
+	m.st.Commit()
+	b.st.Commit()
+	var held []heldWire
+	for i := 1; i <= 40; i += 3 {
+		wm, _ := m.st.Get(mk(i), false)
+		wb, _ := b.st.Get(mk(i), false)
+		o.pf("GET %s 0 %s %s\n", nameStr(mk(i)), optHex(wm), optHex(wb))
+		if wb != nil {
+			held = append(held, heldWire{got: wb, want: append([]byte(nil), wb...), op: i})
+		}
+	}
+	o.flush()
+	// free pages, then reuse them
+	for i := 1; i <= 40; i++ {
+		o.pf("REMOVE %s 0\n", nameStr(mk(i)))
+		m.st.Remove(mk(i), false)
+		b.st.Remove(mk(i), false)
+	}
+	recheckHeld(o, held, "removals")
+	for round := 0; round < 6; round++ {
+		o.pf("BEGIN\n")
+		m.st.Begin()
+		b.st.Begin()
+		for i := 100 + round*40; i < 140+round*40; i++ {
+			put(i, 1500+round*700) // later rounds make the file grow
+		}
+		o.pf("COMMIT\n")
+		m.st.Commit()
+		b.st.Commit()
+		o.flush()
+		recheckHeld(o, held, fmt.Sprintf("commit of round %d", round))
+	}
+	o.pf("END\n")
+}
+
 func TestStoreTrace(t *testing.T) {
 	r := newRand()
 	n := envInt("VERIF_N", 40)
@@ -155,14 +223,40 @@ func TestStoreTrace(t *testing.T) {
 	if c := envInt("VERIF_BOLT_CAP", 0); c > 0 {
 		runStoreCapCase(o, c)
 	}
+	runStoreHeldCase(o, r)
 	for i := 0; i < n; i++ {
 		runStoreCase(o, r, 10+r.Intn(60))
+	}
+}
+
+// heldWire is a wire returned by BoltStore.Get that the caller keeps using (a reply queued in a face, a packet held
+// by the application): `got` is the returned slice itself, `want` a private copy taken at once.
+type heldWire struct {
+	got, want []byte
+	op        int
+}
+
+// recheckHeld compares every held wire with its copy AFTER later writes; a fault while reading is caught.
+func recheckHeld(o *out, held []heldWire, after string) {
+	defer func() {
+		if e := recover(); e != nil {
+			o.pf("STALE fault reading a wire returned by an earlier bolt Get, after %s: %v\n", after, e)
+			o.flush()
+		}
+	}()
+	debug.SetPanicOnFault(true)
+	for _, h := range held {
+		if !bytes.Equal(h.got, h.want) {
+			o.pf("STALE changed wire returned by bolt Get at op %d, after %s: was %s now %s\n", h.op, after, hx(h.want[:min(len(h.want), 16)]), hx(h.got[:min(len(h.got), 16)]))
+			return
+		}
 	}
 }
 
 func runStoreCase(o *out, r *rand.Rand, nops int) {
 	m := newStore("m")
 	b := newStore("b")
+	var held []heldWire
 	defer m.close()
 	defer b.close()
 	u := genUniverse(r)
@@ -193,6 +287,9 @@ func runStoreCase(o *out, r *rand.Rand, nops int) {
 			if err := b.st.Put(nm, ver, wire); err != nil {
 				o.pf("BAD bolt put %v\n", err)
 			}
+			if !inTx {
+				recheckHeld(o, held, "Put")
+			}
 		case x < 72:
 			nm := u.name(r)
 			p := r.Intn(2)
@@ -202,9 +299,21 @@ func runStoreCase(o *out, r *rand.Rand, nops int) {
 				o.pf("BAD get %v %v\n", e1, e2)
 			}
 			o.pf("GET %s %d %s %s\n", nameStr(nm), p, optHex(wm), optHex(wb))
+			if wb != nil {
+				held = append(held, heldWire{got: wb, want: append([]byte(nil), wb...), op: k})
+			}
 		case x < 87:
 			if inTx {
-				continue // bolt: Remove opens a second write transaction and would block forever
+				// std/ndn/store.go: transactions are for Put only, Remove acts on the committed state. BoltStore.Remove
+				// opens its own write transaction and blocks forever while one is open (probed), so inside a bracket the
+				// Remove goes to the memory store only.
+				nm := u.name(r)
+				p := r.Intn(2)
+				o.pf("REMOVEM %s %d\n", nameStr(nm), p)
+				if err := m.st.Remove(nm, p == 1); err != nil {
+					o.pf("BAD mem remove %v\n", err)
+				}
+				continue
 			}
 			nm := u.name(r)
 			p := r.Intn(2)
@@ -215,6 +324,7 @@ func runStoreCase(o *out, r *rand.Rand, nops int) {
 			if err := b.st.Remove(nm, p == 1); err != nil {
 				o.pf("BAD bolt remove %v\n", err)
 			}
+			recheckHeld(o, held, "Remove")
 		case x < 93:
 			if !inTx {
 				o.pf("BEGIN\n")
@@ -231,6 +341,7 @@ func runStoreCase(o *out, r *rand.Rand, nops int) {
 				m.st.Commit()
 				b.st.Commit()
 				inTx = false
+				recheckHeld(o, held, "Commit")
 			}
 		default:
 			dumpStores(o, m, b)
